@@ -980,7 +980,7 @@ theorem C10_errors_reserved (d : Bytes) :
     line of `Ops/Robust.decoders`; the typed-TLV, byte-field, inspector and factory groups are the
     grouped theorems above) fails, on ANY octet string and configuration, only with a member of
     `Listed` — never with `OverflowError`, `FileNotFoundError` or `InvalidVerifParams`, which the
-    shared predicate `Err.documented` would also admit -/
+    shared predicate `Err.documented` would also accept -/
 theorem C10_errors_all_listed (d : Bytes) (n sb eb pfc ver : Nat) (bw : Int) (ids : List Nat) (tr : Bool)
     (oft : Option FrameType) (ft : FrameType) (p : FrameProps) :
     ErrIn Listed (Sph.unpack d) ∧ ErrIn Listed (apidFromRaw d) ∧ ErrIn Listed (parseCall ids [d]) ∧
